@@ -1,0 +1,9 @@
+//go:build verif
+// +build verif
+
+package sm2
+
+// Hooks for the verification harness (build tag "verif" only).
+
+// VerifWNaf exposes the windowed-NAF recoding used by ScalarMult (most significant digit first).
+func VerifWNaf(k []byte) []int8 { return WNafReversed(sm2GenrateWNaf(k)) }
